@@ -57,25 +57,45 @@ pub fn hint_digits(d: usize) {
 /// Decimal printing. Natively: schoolbook division. Under Kani: the digits are fresh solver
 /// variables constrained by  sum d_i * 10^i == n, d_i <= 9  (the decimal representation is
 /// unique, so this is exactly the printed string) - no division reaches the SAT solver.
+/// harness switch: the numbers printed are concrete, use the schoolbook loop (it constant-folds)
+pub static mut DEC_SCHOOLBOOK: bool = false;
+pub fn dec_schoolbook(b: bool) {
+    unsafe { DEC_SCHOOLBOOK = b }
+}
 pub fn dec(n: u128, out: &mut String) {
     #[cfg(kani)]
-    {
+    if !unsafe { DEC_SCHOOLBOOK } {
         if n > u64::MAX as u128 {
             crate::env::nd::bound_exceeded("decimal printing of values above u64::MAX");
             return;
         }
         let n = n as u64;
-        let mut d = [0u8; 20];
-        let mut sum: u128 = 0;
-        let mut i = 0;
-        while i < 20 {
-            d[i] = kani::any();
-            kani::assume(d[i] <= 9);
-            sum += (d[i] as u128) * (POW10[i] as u128);
-            i += 1;
-        }
-        kani::assume(sum == n as u128);
         let hint = unsafe { DIGITS_HINT };
+        // with a digit-count hint only that many digit variables exist and the sum stays in u64
+        // (a 20 x 128-bit multiplier chain ran the SAT back end out of 40 GB)
+        let nd = if hint > 0 { hint } else { 20 };
+        let mut d = [0u8; 20];
+        if nd <= 19 {
+            let mut sum: u64 = 0;
+            let mut i = 0;
+            while i < nd {
+                d[i] = kani::any();
+                kani::assume(d[i] <= 9);
+                sum += (d[i] as u64) * POW10[i];
+                i += 1;
+            }
+            kani::assume(sum == n);
+        } else {
+            let mut sum: u128 = 0;
+            let mut i = 0;
+            while i < 20 {
+                d[i] = kani::any();
+                kani::assume(d[i] <= 9);
+                sum += (d[i] as u128) * (POW10[i] as u128);
+                i += 1;
+            }
+            kani::assume(sum == n as u128);
+        }
         if hint > 0 {
             let ok = (hint == 1 || n >= POW10[hint - 1]) && (hint == 20 || n < POW10[hint]);
             kani::assert(ok, "decimal digit-count hint matches the value printed");
